@@ -167,6 +167,40 @@ def operator_call(call, C):
         return {"error": f"result is not a Tensor: {type(res).__name__} {e}"}
 
 
+def cache_history(req, C):
+    """steps: {"clear": true} | {"entry": "evaluate"|"method", "assignment", "formats" (ordered pairs, target
+    first or not), "inputs": {name: tensor spec}, "kwargs_order": [names]}.  Returns per step the cache counters
+    before/after and the raw result."""
+    from tensora import evaluate, tensor_method
+    from tensora.compile._porcelain import cachable_tensor_method as ctm
+
+    ctm.cache_clear()
+    out = []
+    for st in req["steps"]:
+        if st.get("clear"):
+            ctm.cache_clear()
+            out.append({"cleared": True})
+            continue
+        before = ctm.cache_info()
+        try:
+            inputs = {n: C.tensor_from_stored(tuple(st["inputs"][n]["dims"]), st["inputs"][n]["fmt"], st["inputs"][n]["stored"])
+                      for n in st["kwargs_order"]}
+            fm = dict(st["formats"])
+            if st["entry"] == "evaluate":
+                res = evaluate(st["assignment"], fm[st["target"]], **inputs)
+            else:
+                res = tensor_method(st["assignment"], fm)(**inputs)
+            after = ctm.cache_info()
+            out.append({"raw": C.raw_of_tensor(res), "hits": after.hits - before.hits, "misses": after.misses - before.misses,
+                        "currsize": after.currsize})
+        except Exception as e:  # noqa: BLE001
+            after = ctm.cache_info()
+            out.append({"raised": f"{type(e).__name__}: {e}"[:300], "hits": after.hits - before.hits,
+                        "misses": after.misses - before.misses})
+    ctm.cache_clear()
+    return {"steps": out}
+
+
 def main():
     out = os.fdopen(os.dup(1), "w")
     os.dup2(2, 1)
@@ -218,6 +252,8 @@ def main():
                 rep = llvm_kernels(req, bridge, C)
             elif op == "operators":
                 rep = {"results": [operator_call(c, C) for c in req["calls"]]}
+            elif op == "cache_history":
+                rep = cache_history(req, C)
             elif op == "llvm_program":
                 rep = llvm_program(req, bridge, C)
             else:
